@@ -32,14 +32,19 @@
 //      acknack.addressee  reader_id / writer_id / INFO_DST of the reply name this reader and the writer whose
 //                         locator the reply was sent to
 //
-// Bound (one writer): alphabet FULL (143 operations) =
-//     DATA(sn) sn in 1..=5;  GAP(start a, base b, bits subset of {b,b+1}) 1<=a<=b<=6;
+// Bound (one writer): alphabet FULL (153 operations) =
+//     DATA(sn) sn in 1..=5;  UNUSABLE-DATA(sn, variant) sn in 1..=5 = a DATA that cannot be turned into a change
+//     (variant 0: no payload, no flags, no inline QoS; variant 1: payload with D and K flag both set): the model
+//     covers sn (its DATA has arrived, there is nothing to hand over), later samples must flow;
+//     GAP(start a, base b, bits subset of {b,b+1}) 1<=a<=b<=6;
 //     HEARTBEAT(first f, last l, final?) 0<=f<=l+1<=6, l>=0; the HEARTBEAT count is the position in the sequence.
-//   alphabet SMALL (27 operations) = DATA(1..=3); GAP with b<=3 and bits subset of {b}; HEARTBEAT(f,3,final?) f in 1..=4
-//     and HEARTBEAT(f,2,false) f in 1..=3, HEARTBEAT(0,3,false).
-//   Exhaustive: every sequence of length <= 2 over FULL; every sequence of length 3 over FULL x FULL x FULL whose
-//   first operation is in SMALL; every sequence of length 4 over SMALL.
-//   Two writers: every pair of length-2 sequences over a 10-operation alphabet, interleaved A1 B1 A2 B2.
+//   alphabet SMALL (29 operations) = DATA(1..=3); UNUSABLE-DATA(1..=3, variant 0); GAP with b<=3 and bits subset of {b};
+//     HEARTBEAT(f,3,final?) f in 1..=4 and HEARTBEAT(f,2,false) f in 1..=3.
+//   Exhaustive: every sequence of length <= 2 over FULL (take() after every step, and take() only at the end); every
+//   sequence of length 3 over FULL x FULL x FULL whose first operation is in SMALL; every sequence of length 4 over SMALL.
+//   Two writers: every pair of length-2 sequences over an 11-operation alphabet, interleaved A1 B1 A2 B2, each with
+//   four take() schedules (after every step / only at the end / after steps 1,3,4 / after steps 2,4), so that samples of
+//   both writers received out of order sit in the DataReader together.
 //   Duplicate heartbeats: op, HEARTBEAT(count 2), op, HEARTBEAT(count 1 or 2) over SMALL (ops without HEARTBEAT).
 //   Fragments: 2 SNs x 3 fragments; every sequence of length <= 4 over {DATAFRAG(sn,f), HEARTBEAT(1,2,final?)}
 //   and every sequence DATAFRAG x DATAFRAG x {GAP, DATA} x HEARTBEAT.
@@ -80,6 +85,8 @@ mod verif_xc_reader_path {
     Gap(i64, i64, u8),  // GAP(gap_start, gap_list.base, bitmap: bit0 = base, bit1 = base+1)
     Hb(i64, i64, bool), // HEARTBEAT(first_sn, last_sn, final flag)
     Frag(i64, u32),     // DATAFRAG(writer_sn, fragment number) of a 3-fragment sample
+    Unusable(i64, u8),  // DATA(writer_sn) that cannot be turned into a change: 0 = no payload, no flags, no inline QoS;
+                        // 1 = payload with both the D and the K flag set
   }
 
   #[derive(Clone, Copy)]
@@ -93,6 +100,7 @@ mod verif_xc_reader_path {
       match self.op {
         Op::Data(s) => write!(f, "w{}:DATA({})", self.w, s),
         Op::Frag(s, k) => write!(f, "w{}:DATAFRAG(sn={},frag={}/3)", self.w, s, k),
+        Op::Unusable(s, v) => write!(f, "w{}:UNUSABLE-DATA({},{})", self.w, s, ["no payload/flags/inline QoS", "D and K flag both set"][v as usize]),
         Op::Gap(a, b, bits) => {
           let l: Vec<i64> = (0..2).filter(|i| bits & (1 << i) != 0).map(|i| b + i).collect();
           write!(f, "w{}:GAP(start={},base={},list={:?})", self.w, a, b, l)
@@ -105,6 +113,7 @@ mod verif_xc_reader_path {
   fn full_alphabet() -> Vec<Op> {
     let mut v = vec![];
     for s in 1..=5 { v.push(Op::Data(s)); }
+    for s in 1..=5 { for var in 0..2u8 { v.push(Op::Unusable(s, var)); } }
     for a in 1..=6 { for b in a..=6 { for bits in 0..4u8 { v.push(Op::Gap(a, b, bits)); } } }
     for l in 0..=5 { for f in 0..=l + 1 { for fin in [false, true] { v.push(Op::Hb(f, l, fin)); } } }
     v
@@ -113,10 +122,10 @@ mod verif_xc_reader_path {
   fn small_alphabet() -> Vec<Op> {
     let mut v = vec![];
     for s in 1..=3 { v.push(Op::Data(s)); }
+    for s in 1..=3 { v.push(Op::Unusable(s, 0)); }
     for a in 1..=3 { for b in a..=3 { for bits in 0..2u8 { v.push(Op::Gap(a, b, bits)); } } }
     for f in 1..=4 { for fin in [false, true] { v.push(Op::Hb(f, 3, fin)); } }
     for f in 1..=3 { v.push(Op::Hb(f, 2, false)); }
-    v.push(Op::Hb(0, 3, false));
     v
   }
 
@@ -161,6 +170,8 @@ mod verif_xc_reader_path {
     fn apply(&mut self, st: &Step, step: usize) -> bool {
       match st.op {
         Op::Data(s) => { self.sample_arrived(s, step, step); false }
+        // the DATA for s has arrived, but it carries nothing that could be handed over: s is not missing any more
+        Op::Unusable(s, _) => { self.cover(s); false }
         Op::Frag(s, f) => {
           if !self.is_covered(s) {
             self.frags[s as usize] |= 1 << f;
@@ -416,6 +427,16 @@ mod verif_xc_reader_path {
         reader.handle_data_msg(data, DATA_Flags::Endianness | DATA_Flags::Data, &mr_state);
         false
       }
+      Op::Unusable(s, var) => {
+        let data = Data {
+          reader_id, writer_id, writer_sn: sn(s),
+          inline_qos: None,
+          serialized_payload: if var == 0 { None } else { Some(payload_bytes(w.tag, s, step)) },
+        };
+        let flags = if var == 0 { BitFlags::<DATA_Flags>::empty() } else { DATA_Flags::Endianness | DATA_Flags::Data | DATA_Flags::Key };
+        reader.handle_data_msg(data, flags, &mr_state);
+        false
+      }
       Op::Frag(s, f) => {
         let all = payload_bytes(w.tag, s, FRAG_PAYLOAD_STEP);
         assert!(all.len() == FRAG_SIZE * FRAGS as usize, "test setup: payload is {} bytes", all.len());
@@ -448,8 +469,25 @@ mod verif_xc_reader_path {
 
   // ------------------------------------------------------------------ the oracle
 
+  // what the witness shows: the operations fed so far and when the application called take()
+  struct Tr<'a> {
+    ops: &'a [Step],
+    takes: u32,
+  }
+  impl std::fmt::Debug for Tr<'_> {
+    fn fmt(&self, f: &mut std::fmt::Formatter<'_>) -> std::fmt::Result {
+      write!(f, "{:?}", self.ops)?;
+      let every = (0..self.ops.len()).all(|i| self.takes & (1 << i) != 0);
+      if !every {
+        let at: Vec<usize> = (0..self.ops.len()).filter(|i| self.takes & (1 << i) != 0 || i + 1 == self.ops.len()).map(|i| i + 1).collect();
+        write!(f, " take() only after steps {:?}", at)?;
+      }
+      Ok(())
+    }
+  }
+
   // (1) hand-over: drain the DataReader and compare with the models. `t` = operations fed so far.
-  fn check_handover(t: &[Step], rig: &mut Rig, writers: &[Writer], models: &mut [Model]) {
+  fn check_handover(t: &Tr, rig: &mut Rig, writers: &[Writer], models: &mut [Model]) {
     let samples = rig.datareader.as_mut().unwrap().take(100, ReadCondition::any()).expect("take");
     for s in samples {
       let id = s.sample_info().sample_identity();
@@ -491,8 +529,8 @@ mod verif_xc_reader_path {
   }
 
   // (2) replies: everything the reader sent during the last step
-  fn check_replies(t: &[Step], rig: &mut Rig, writers: &[Writer], models: &mut [Model], new_hb: bool, claimed: bool) {
-    let cur = t.last().unwrap();
+  fn check_replies(t: &Tr, rig: &mut Rig, writers: &[Writer], models: &mut [Model], new_hb: bool, claimed: bool) {
+    let cur = t.ops.last().unwrap();
     let replies = rig.drain_sockets(claimed);
     let mut answered_by_acknack = false;
     let mut lowest_requested = false;
@@ -578,7 +616,7 @@ mod verif_xc_reader_path {
   }
 
   // per submessage kind the count grows in wire order
-  fn check_kind_count(t: &[Step], wi: usize, m: &mut Model, kind: usize, count: i32) {
+  fn check_kind_count(t: &Tr, wi: usize, m: &mut Model, kind: usize, count: i32) {
     assert!(m.prev_kind_count[kind].map_or(true, |p| count > p),
       "XC-WITNESS label=acknack.count ops={:?} writer=w{}: {} count {} follows {} count {:?}: does not grow", t, wi,
       ["ACKNACK", "NACKFRAG"][kind], count, ["ACKNACK", "NACKFRAG"][kind], m.prev_kind_count[kind]);
@@ -586,14 +624,17 @@ mod verif_xc_reader_path {
   }
 
   // Run one operation sequence on a fresh reader, checking after every step.
-  fn run(rig: &mut Rig, seq: &[Step]) {
+  fn run(rig: &mut Rig, seq: &[Step]) { run_takes(rig, seq, u32::MAX) }
+
+  // `takes`: bit i set = the application calls take() after step i (it always does after the last step)
+  fn run_takes(rig: &mut Rig, seq: &[Step], takes: u32) {
     let (mut reader, keep, writers) = rig.fresh();
     let mut models: Vec<Model> = writers.iter().map(|_| Model::new()).collect();
     for (i, st) in seq.iter().enumerate() {
       let new_hb = models[st.w].apply(st, i);
       let claimed = feed(&mut reader, &writers[st.w], st, i);
-      let t = &seq[..=i];
-      check_handover(t, rig, &writers, &mut models);
+      let t = &Tr { ops: &seq[..=i], takes };
+      if takes & (1 << i) != 0 || i + 1 == seq.len() { check_handover(t, rig, &writers, &mut models); }
       check_replies(t, rig, &writers, &mut models, new_hb, claimed);
     }
     rig.give_back(reader, keep, &writers);
@@ -612,30 +653,29 @@ mod verif_xc_reader_path {
 
   // ------------------------------------------------------------------ tests
 
-  #[test]
-  fn xc_reader_len2_full() {
-    loopback_works();
+  fn len2_full(rig: &mut Rig) {
     let full = full_alphabet();
-    assert!(full.len() == 143);
-    let mut rig = Rig::new("len2", 1);
-    let mut n = 0u64;
+    assert!(full.len() == 153);
+    let (mut n, a0, h0) = (0u64, rig.n_acknacks, rig.n_handed);
     for &a in &full {
-      run(&mut rig, &w0(&[a]));
+      run(rig, &w0(&[a]));
       n += 1;
     }
     for &a in &full {
       for &b in &full {
-        run(&mut rig, &w0(&[a, b]));
-        n += 1;
+        run(rig, &w0(&[a, b]));
+        run_takes(rig, &w0(&[a, b]), 0); // the application takes only at the end
+        n += 2;
       }
     }
-    assert!(n > 20_000 && rig.n_acknacks > 10_000 && rig.n_handed > 300,
-      "vacuity guard: {} sequences, {} ACKNACKs observed, {} samples handed over", n, rig.n_acknacks, rig.n_handed);
+    assert!(n > 40_000 && rig.n_acknacks - a0 > 20_000 && rig.n_handed - h0 > 600,
+      "vacuity guard: {} sequences, {} ACKNACKs observed, {} samples handed over", n, rig.n_acknacks - a0, rig.n_handed - h0);
   }
 
   fn len3(part: usize, parts: usize) {
     let full = full_alphabet();
     let small = small_alphabet();
+    assert!(small.len() == 29);
     let mut rig = Rig::new(&format!("len3_{part}"), 1);
     let mut n = 0u64;
     for &a in &small {
@@ -647,45 +687,48 @@ mod verif_xc_reader_path {
         }
       }
     }
-    assert!(n > 100_000 && rig.n_acknacks > 10_000 && rig.n_handed > 1_000,
+    assert!(n > 200_000 && rig.n_acknacks > 20_000 && rig.n_handed > 2_000,
       "vacuity guard: {} sequences, {} ACKNACKs observed, {} samples handed over", n, rig.n_acknacks, rig.n_handed);
   }
   #[test]
-  fn xc_reader_len3_part0() { len3(0, 4); }
+  fn xc_reader_len3_part0() { len3(0, 3); }
   #[test]
-  fn xc_reader_len3_part1() { len3(1, 4); }
+  fn xc_reader_len3_part1() { len3(1, 3); }
   #[test]
-  fn xc_reader_len3_part2() { len3(2, 4); }
-  #[test]
-  fn xc_reader_len3_part3() { len3(3, 4); }
+  fn xc_reader_len3_part2() { len3(2, 3); }
 
   fn len4(part: usize, parts: usize) {
     let small = small_alphabet();
     let mut rig = Rig::new(&format!("len4_{part}"), 1);
     let mut n = 0u64;
-    for (ia, &a) in small.iter().enumerate() {
-      if ia % parts != part { continue; }
-      for &b in &small { for &c in &small { for &d in &small {
+    for &a in &small { for (ib, &b) in small.iter().enumerate() {
+      if ib % parts != part { continue; }
+      for &c in &small { for &d in &small {
         run(&mut rig, &w0(&[a, b, c, d]));
         n += 1;
-      } } }
-    }
-    assert!(n > 100_000 && rig.n_acknacks > 10_000 && rig.n_handed > 1_000,
+      } }
+    } }
+    assert!(n > 150_000 && rig.n_acknacks > 20_000 && rig.n_handed > 2_000,
       "vacuity guard: {} sequences, {} ACKNACKs observed, {} samples handed over", n, rig.n_acknacks, rig.n_handed);
   }
   #[test]
-  fn xc_reader_len4_part0() { len4(0, 3); }
+  fn xc_reader_len4_part0() { len4(0, 4); }
   #[test]
-  fn xc_reader_len4_part1() { len4(1, 3); }
+  fn xc_reader_len4_part1() { len4(1, 4); }
   #[test]
-  fn xc_reader_len4_part2() { len4(2, 3); }
+  fn xc_reader_len4_part2() { len4(2, 4); }
+  #[test]
+  fn xc_reader_len4_part3() { len4(3, 4); }
 
   #[test]
-  fn xc_reader_two_writers_dup_frag() {
+  fn xc_reader_len2_two_writers_dup_frag() {
     loopback_works();
-    // --- two writers interleaved
+    let mut rig = Rig::new("len2", 1);
+    len2_full(&mut rig);
+
+    // --- two writers interleaved, with different moments at which the application calls take()
     let tiny = [
-      Op::Data(1), Op::Data(2), Op::Data(3), Op::Gap(1, 1, 1), Op::Gap(1, 2, 0), Op::Gap(2, 3, 0),
+      Op::Data(1), Op::Data(2), Op::Data(3), Op::Unusable(1, 0), Op::Gap(1, 1, 1), Op::Gap(1, 2, 0), Op::Gap(2, 3, 0),
       Op::Hb(1, 3, false), Op::Hb(2, 3, true), Op::Hb(1, 2, false), Op::Hb(3, 3, true),
     ];
     let mut rig = Rig::new("two", 2);
@@ -695,10 +738,12 @@ mod verif_xc_reader_path {
         Step { w: 0, op: a1, count: 1 }, Step { w: 1, op: b1, count: 1 },
         Step { w: 0, op: a2, count: 2 }, Step { w: 1, op: b2, count: 2 },
       ];
-      run(&mut rig, &seq);
-      n += 1;
+      for takes in [0b111, 0b000, 0b101, 0b010] {
+        run_takes(&mut rig, &seq, takes);
+        n += 1;
+      }
     } } } }
-    assert!(n == 10_000 && rig.n_acknacks > 3_000 && rig.n_handed > 3_000,
+    assert!(n == 4 * 14_641 && rig.n_acknacks > 10_000 && rig.n_handed > 10_000,
       "vacuity guard: {} two-writer sequences, {} ACKNACKs, {} samples", n, rig.n_acknacks, rig.n_handed);
 
     // --- duplicate / stale heartbeats
